@@ -111,6 +111,14 @@ fn chmod_tree(p: &Path) -> std::io::Result<()> {
     Ok(())
 }
 
+fn lines_arg(a: &str) -> Option<Vec<String>> {
+    let body = a.strip_prefix("l:")?;
+    if body.is_empty() {
+        return Some(vec![]);
+    }
+    body.split(',').map(|h| String::from_utf8(unhex(h)?).ok()).collect()
+}
+
 fn oct(a: &str) -> Option<u32> {
     u32::from_str_radix(a, 8).ok()
 }
@@ -127,6 +135,9 @@ pub fn op(sb: &Sbx, v: &Stdfs, name: &str, a: &[&str]) -> Option<String> {
         ("mkdir_m", 2) => { let (p, m) = (s(0)?, oct(a[1])?); guarded(|| show_res(v.mkdir_m(&p, m), sp)) },
         ("write_all", 2) => { let (p, d) = (s(0)?, arg_bytes(a[1])?); guarded(|| show_res(v.write_all(&p, &d), |_| "u".to_string())) },
         ("append_all", 2) => { let (p, d) = (s(0)?, arg_bytes(a[1])?); guarded(|| show_res(v.append_all(&p, &d), |_| "u".to_string())) },
+        ("write_lines", 2) => { let (p, l) = (s(0)?, lines_arg(a[1])?); guarded(|| show_res(v.write_lines(&p, &l), |_| "u".to_string())) },
+        ("append_lines", 2) => { let (p, l) = (s(0)?, lines_arg(a[1])?); guarded(|| show_res(v.append_lines(&p, &l), |_| "u".to_string())) },
+        ("append_line", 2) => { let (p, l) = (s(0)?, raw(1)?); guarded(|| show_res(v.append_line(&p, &l), |_| "u".to_string())) },
         ("read_all", 1) => { let p = s(0)?; guarded(|| show_res(v.read_all(&p), |x| show_str(x))) },
         ("read_lines", 1) => { let p = s(0)?; guarded(|| show_res(v.read_lines(&p), |x| show_strs(x))) },
         ("read", 1) => {
